@@ -15,7 +15,7 @@ RULE = (
     "Pairs (P, P'): (a) P' is P under another layout (separators, comments, whitespace) and with integer-valued "
     "gate arguments respelled (1 <-> 1.0): the circuits must be equal; (b) P' is a SINGLE-SITE mutant of P made at "
     "model level - gate name, one argument value, one more/fewer argument, qubit index, loop count, subcircuit "
-    "count, block kind of a block with >= 2 statements, alias bound, let value, register size, usepulses module / order of the imports / a repeated import, a declaration (let, alias, macro) added at the end of its table or an unused last one dropped, "
+    "count, block kind of a block with >= 2 statements, alias bound, alias source, a macro parameter renamed in the header only, two macro parameters exchanged, let value, register size, usepulses module / order of the imports / a repeated import, a declaration (let, alias, macro) added at the end of its table or an unused last one dropped, "
     "which parameter a macro body uses: whenever the reference semantics says meaning or declarations differ the "
     "circuits must compare unequal in both directions (mutants the reference cannot tell apart, or that are "
     "invalid, are discarded and counted). Always: c == c, (a == b) == (b == a), c == parse(generate(c)), and "
@@ -162,6 +162,36 @@ def _sites(p):
                     return True
 
                 out.append(("alias-bound", 0, False, bound))
+    for mi, m in enumerate(p["maps"]):
+        # the SOURCE of an alias: another register-like name declared before it
+        earlier = [p["reg"][0]] + [x[0] for x in p["maps"][:mi]] if p["reg"] else []
+        others = [n for n in earlier if n != m[1]]
+        if others:
+
+            def resrc(ch, m=m, others=others):
+                m[1] = others[ch % len(others)]
+                return True
+
+            out.append(("alias-source", 0, False, resrc))
+    for m in p["macros"]:
+        if m["params"]:
+            # a parameter renamed in the header ONLY (its uses in the body then mean the header's
+            # binding of that name, if there is one), and two parameters exchanged
+            def prename(ch, m=m):
+                j = ch % len(m["params"])
+                cand = [n for n in ([p["reg"][0]] if p["reg"] else []) + [l[0] for l in p["lets"]] + [x[0] for x in p["maps"]] + ["zz_p"] if n not in m["params"]]
+                m["params"][j] = cand[(ch // 2) % len(cand)]
+                return True
+
+            out.append(("macro-parameter-name", 0, True, prename))
+        if len(set(m["params"])) >= 2:
+
+            def pswap(ch, m=m):
+                j = ch % (len(m["params"]) - 1)
+                m["params"][j], m["params"][j + 1] = m["params"][j + 1], m["params"][j]
+                return True
+
+            out.append(("macro-parameter-order", 0, True, pswap))
     for i in range(len(p["usepulses"])):
 
         def use(ch, i=i):
@@ -300,7 +330,9 @@ def _basic_laws(c, text):
         raise Skip()
     st_, c2 = guard(parse, t, what="reparse")
     if st_ == "err":
-        raise Skip()  # C01's business
+        # "a circuit equals the re-parse of its own generated text": a text that does not parse
+        # back gives nothing to be equal to (C01 judges the round trip in full)
+        raise Violation("not-equal-to-own-reparse", f"the generated text is rejected: {c2}\n--- program:\n{text}\n--- generated:\n{t}", where="rejected")
     if not (c == c2) or not (c2 == c):
         raise Violation("not-equal-to-own-reparse", f"--- program:\n{text}\n--- generated:\n{t}")
 
